@@ -57,6 +57,18 @@ reg('C18', 'Hypothesis recursive value generators with save/load round-trip orac
     'and loaded back; the result is compared type-exactly (NaN-aware, float cells to the written '
     'precision) with the value that was saved.', TRUST + ' Python json/csv.')
 
+reg('C01', 'exhaustive small-scope enumeration + Hypothesis layouts/index expressions vs NumPy-indexing oracle',
+    'For every recording length up to the bound, every composition into flat files and every '
+    'single-part backend, ALL supported index expressions x column selectors are enumerated and '
+    'compared with NumPy indexing of the concatenated array; larger multi-file layouts with '
+    'unaligned header offsets and boundary-biased expressions are sampled with Hypothesis.',
+    TRUST + ' mtscomp as codec.')
+reg('C02', 'Hypothesis generated operator programs / derivation trees, differential vs eager NumPy',
+    'Generated derivation trees of lazy readers (all operators, reflected forms, column '
+    'selection, int and float scalars, every backend) are read in generated orders and compared '
+    'with the same Python expression evaluated eagerly on the loaded array; parents and siblings '
+    'are re-read after every derivation to expose aliasing.', TRUST + ' mtscomp as codec.')
+
 
 def main():
     props = [json.loads(l) for l in (HERE / 'properties.jsonl').read_text().splitlines() if l.strip()]
